@@ -8,16 +8,19 @@ from shapes import SHAPES, NSLOT, NMON, SCOPED_IDS
 
 NTU = 16
 
-def clause_code(tok, S):
+def clause_code(tok, S, fn='f'):
     lr = tok.startswith('L') and tok not in ()
     t = tok[1:] if lr else tok
     if t[0] == 'W' and t[1:].isdigit():
-        return '.%sWITH(WC(%d,%s,_1))' % ('LR_' if lr else '', S, t[1:])
+        # a function without parameters has conditions too: they are evaluated on the constant 0
+        return '.%sWITH(WC(%d,%s,%s))' % ('LR_' if lr else '', S, t[1:], '0' if fn == 'z' else '_1')
     if tok.startswith('MS'):
         return '.SIDE_EFFECT(SE(%d,%s); _1 = 77)' % (S, tok[2:])
     if t[0] == 'S' and t[1:].isdigit():
         return '.%sSIDE_EFFECT(SE(%d,%s))' % ('LR_' if lr else '', S, t[1:])
     if t == 'R':
+        if fn == 'q':       # std::string returned by value from an rvalue expression
+            return '.%sRETURN(std::string("r") + std::to_string(RV(%d)))' % ('LR_' if lr else '', S)
         return '.%sRETURN(RV(%d))' % ('LR_' if lr else '', S)
     if tok == 'TH':
         return '.THROW(TH(%d))' % S
@@ -68,9 +71,13 @@ def call_text(sh, S):
         arg = 'PMS(%d)' % S
     elif fn == 'g':
         arg = 'PM(%d,0), PM(%d,1)' % (S, S)
+    elif fn == 'h':
+        arg = 'PM(%d,0), PM(%d,1), PM(%d,2)' % (S, S, S)
+    elif fn == 'z':
+        arg = ''
     else:
         arg = 'PM(%d,0)' % S
-    name = {'f': 'f', 's': 'f', 'g': 'g', 'v': 'v'}[fn]
+    name = {'f': 'f', 's': 'f', 'g': 'g', 'v': 'v', 'z': 'z', 'h': 'h', 'q': 'q'}[fn]
     return '%s(%s)' % (name, arg)
 
 def main(outdir):
@@ -88,7 +95,7 @@ def main(outdir):
                  'namespace drv { bool make_expectation_%d(int slot, int shape) { SlotCfg& c = cfg[slot]; switch (slot * 1000 + shape) {' % n]
         for (S, sh) in tu:
             ct = call_text(sh, S)
-            mods = ''.join(clause_code(t, S) for t in sh['cl'])
+            mods = ''.join(clause_code(t, S, sh['fn']) for t in sh['cl'])
             if sh['macro'].endswith('_V'):
                 macro = {'REQ_V': 'NAMED_REQUIRE_CALL_V', 'ALLOW_V': 'NAMED_ALLOW_CALL_V', 'FORBID_V': 'NAMED_FORBID_CALL_V'}[sh['macro']]
                 code = 'case %d: %s exps[%d] = %s(%s, %s%s); return true;' % (
@@ -108,7 +115,7 @@ def main(outdir):
              'namespace drv { bool make_scoped(int slot, int shape, std::function<void()> const& created, std::function<void()> const& body) { SlotCfg& c = cfg[slot]; (void)c; switch (slot * 1000 + shape) {']
     for (S, sh) in spairs:
         ct = call_text(sh, S)
-        mods = ''.join(clause_code(t, S) for t in sh['cl'])
+        mods = ''.join(clause_code(t, S, sh['fn']) for t in sh['cl'])
         m = sh['macro']
         if m.endswith('_V'):
             macro = {'SREQ_V': 'REQUIRE_CALL_V', 'SALLOW_V': 'ALLOW_CALL_V', 'SFORBID_V': 'FORBID_CALL_V'}[m]
